@@ -254,6 +254,8 @@ var c22Templates = []c22Template{
 	{"etcd", []string{"x/offsets/b", "b"}, []string{"g", "g/offsets/x"}, -1},
 	{"etcd", []string{"x/offsets/b", "b"}, nil, 1},
 	{"etcd", []string{"t", "t/x"}, nil, 0},
+	{"etcd", []string{"b", "b/partitions"}, nil, 1},
+	{"etcd", []string{"t", "t/partitions/0", "t/partitions/1"}, nil, 1},
 	{"both", []string{"t", "t2", "T", "t.2", "t_2"}, nil, 0},
 	{"both", []string{c22Long("k", 249), c22Long("k", 248) + "y", c22Long("k", 200)}, nil, 0},
 	{"both", []string{"a.b", "a_b", "a-b", "A.B"}, nil, 1},
@@ -353,6 +355,16 @@ func c22GenNames(rng *rand.Rand, kind string, ns string) []c22TopicSpec {
 						specs[q].Group = "g/offsets/" + n[:j]
 					}
 				}
+			}
+		}
+	}
+	// a separator-carrying group name is only used as the counterpart of an accepted TOPIC name that
+	// carries the separator; if its embedded part is itself a (legal) topic of the case, effects between
+	// that topic and the counterpart would be due to the group name alone - not C22's subject (C16/C17)
+	for i := range specs {
+		for _, pre := range []string{"g:", "g/offsets/"} {
+			if strings.HasPrefix(specs[i].Group, pre) && seen[strings.TrimPrefix(specs[i].Group, pre)] {
+				specs[i].Group = "g"
 			}
 		}
 	}
@@ -1210,7 +1222,7 @@ func c22Run(w *c22World, specs []c22TopicSpec, steps []c22Step, only int, caseID
 			}
 			if what != "" {
 				ts.tainted = true
-				out.devs = append(out.devs, c22Dev{Step: si, Trigger: fmt.Sprintf("%s on %q", st.Kind, c22StepTopic(specs, st)), T: ts.idx, What: what, Detail: detail})
+				out.devs = append(out.devs, c22Dev{Step: si, Trigger: fmt.Sprintf("%s on %s", st.Kind, c22Q(c22StepTopic(specs, st))), T: ts.idx, What: what, Detail: detail})
 				out.trace = append(out.trace, fmt.Sprintf("%d   DEVIATION of %q: %s: %s", si, ts.spec.Name, what, detail))
 			}
 		}
@@ -1259,6 +1271,23 @@ func c22Nested(aKeys, bDirs, aDirs map[string]bool) []string {
 	return out
 }
 
+// c22LegalSuffix marks a finding between two names that contain no path
+// separator and no dot segment: such a pair is never covered by a known finding.
+func c22LegalSuffix(a, b *c22TState) string {
+	if c22UnsafeKind(a.spec.Name) == "" && c22UnsafeKind(b.spec.Name) == "" {
+		return ":legal_looking_names"
+	}
+	return ""
+}
+
+// c22Q quotes a name for a one-line summary (long names abbreviated; the replay has them in full).
+func c22Q(name string) string {
+	if len(name) > 48 {
+		return fmt.Sprintf("%q…(%d bytes)…%q", name[:16], len(name), name[len(name)-8:])
+	}
+	return fmt.Sprintf("%q", name)
+}
+
 func c22EtcdDirs(keys map[string]bool) map[string]bool {
 	d := map[string]bool{}
 	for k := range keys {
@@ -1301,8 +1330,14 @@ func c22Mechanism(kind string, a *c22TState, dev c22Dev, trig c22Step, all []*c2
 			if kind == "mem" && strings.HasPrefix(a.spec.Name, b.spec.Name+":") {
 				return "mem_delete_colon_prefix", b
 			}
-			if kind == "etcd" && strings.HasPrefix(a.spec.Name, b.spec.Name+"/") {
-				return "etcd_delete_slash_prefix", b
+			// deleteTopicOffsets(b) removes the etcd prefix /kafscale/topics/<b>/; a's offsets live
+			// under /kafscale/topics/<a>/partitions/<p>/ (hit for a = b+"/…", b = a+"/partitions", b = a+"/partitions/<p>")
+			if kind == "etcd" {
+				for _, k := range []string{a.spec.Name + "/partitions/0/next_offset", a.spec.Name + "/partitions/1/next_offset", a.spec.Name + "/config"} {
+					if strings.HasPrefix(k, b.spec.Name+"/") {
+						return "etcd_delete_slash_prefix", b
+					}
+				}
 			}
 			if kind == "etcd" && dev.What == "committed_offset" && strings.Contains(fmt.Sprintf("/kafscale/consumers/%s/offsets/%s/0", a.spec.Group, a.spec.Name), "/offsets/"+b.spec.Name+"/") {
 				return "etcd_delete_offsets_infix", b
@@ -1315,11 +1350,15 @@ func c22Mechanism(kind string, a *c22TState, dev c22Dev, trig c22Step, all []*c2
 				return "etcd_consumer_key_slash_join", b
 			}
 		case trig.Kind == "produce" || trig.Kind == "restart" || trig.Kind == "create":
+			legal := ""
+			if c22UnsafeKind(a.spec.Name) == "" && c22UnsafeKind(b.spec.Name) == "" {
+				legal = ":legal_looking_names"
+			}
 			if len(c22Intersect(a.s3Dirs, b.s3Dirs)) > 0 {
-				return "s3_same_partition_dir", b
+				return "s3_same_partition_dir" + legal, b
 			}
 			if len(c22Nested(b.s3W, a.s3Dirs, b.s3Dirs)) > 0 || len(c22Nested(a.s3W, b.s3Dirs, a.s3Dirs)) > 0 {
-				return "s3_nested_partition_dir", b
+				return "s3_nested_partition_dir" + legal, b
 			}
 		}
 	}
@@ -1414,7 +1453,7 @@ func (l *c22Leg) runCase(ci int) {
 					keys = append(keys, key)
 				}
 				sort.Strings(keys)
-				r.Violation("unsafe_name_accepted:"+k, fmt.Sprintf("[%s] topic name %q (%s) was accepted via %s; S3 keys written for it: %v", l.kind, ts.spec.Name, k, ts.spec.Via, keys), witness(map[string]any{"name": ts.spec.Name, "via": ts.spec.Via, "s3_keys": keys}))
+				r.Violation("unsafe_name_accepted:"+k, fmt.Sprintf("[%s] topic name %s (%s) was accepted via %s; S3 keys written for it: %v", l.kind, c22Q(ts.spec.Name), k, ts.spec.Via, keys), witness(map[string]any{"name": ts.spec.Name, "via": ts.spec.Via, "s3_keys": keys}))
 			}
 		} else {
 			l.count("topics_rejected", 1)
@@ -1450,9 +1489,9 @@ func (l *c22Leg) runCase(ci int) {
 				sh := c22Intersect(a.s3W, b.s3W)
 				pair["shared_s3_partition_dirs"] = sd
 				pair["s3_objects_written_by_both"] = sh
-				sum := fmt.Sprintf("[%s] topics %q and %q keep their segments in the same S3 directory %q", l.kind, a.spec.Name, b.spec.Name, sd[0])
+				sum := fmt.Sprintf("[%s] topics %s and %s keep their segments in the same S3 directory %s", l.kind, c22Q(a.spec.Name), c22Q(b.spec.Name), c22Q(sd[0]))
 				if len(sh) > 0 {
-					sum += fmt.Sprintf("; both wrote object %q (%d objects written by both)", sh[0], len(sh))
+					sum += fmt.Sprintf("; both wrote object %s (%d objects written by both)", c22Q(sh[0]), len(sh))
 					l.count("pairs_with_same_s3_object", 1)
 				}
 				r.Violation("s3_same_partition_dir:"+c22WorseKind(a.spec.Name, b.spec.Name), sum, witness(pair))
@@ -1474,18 +1513,18 @@ func (l *c22Leg) runCase(ci int) {
 				}
 				sort.Strings(rd)
 				pair["objects_of_inner_topic_downloaded_by_outer_topic"] = rd
-				r.Violation("s3_key_under_foreign_partition_dir", fmt.Sprintf("[%s] S3 key of topic %q lies in a partition directory of topic %q: %s", l.kind, inner.spec.Name, outer.spec.Name, ex), witness(pair))
+				r.Violation("s3_key_under_foreign_partition_dir"+c22LegalSuffix(a, b), fmt.Sprintf("[%s] S3 key of topic %s lies in a partition directory of topic %s: %s", l.kind, c22Q(inner.spec.Name), c22Q(outer.spec.Name), ex), witness(pair))
 			}
 			if l.kind == "etcd" {
 				if sh := c22Intersect(a.etcdPut, b.etcdPut); len(sh) > 0 {
 					pair["shared_etcd_keys"] = sh
-					r.Violation("etcd_same_key:"+c22WorseKind(a.spec.Name, b.spec.Name), fmt.Sprintf("topics %q and %q both wrote etcd key %q", a.spec.Name, b.spec.Name, sh[0]), witness(pair))
+					r.Violation("etcd_same_key:"+c22WorseKind(a.spec.Name, b.spec.Name), fmt.Sprintf("topics %s and %s both wrote etcd key %s", c22Q(a.spec.Name), c22Q(b.spec.Name), c22Q(sh[0])), witness(pair))
 				}
 				n1, n2 := c22Nested(a.etcdPut, c22EtcdDirs(b.etcdPut), c22EtcdDirs(a.etcdPut)), c22Nested(b.etcdPut, c22EtcdDirs(a.etcdPut), c22EtcdDirs(b.etcdPut))
 				if len(n1)+len(n2) > 0 {
 					pair["nested_etcd_keys"] = append(n1, n2...)
 					ex := append(n1, n2...)[0]
-					r.Violation("etcd_key_under_foreign_dir", fmt.Sprintf("etcd key of one of the topics %q / %q lies under a key directory of the other: %s", a.spec.Name, b.spec.Name, ex), witness(pair))
+					r.Violation("etcd_key_under_foreign_dir"+c22LegalSuffix(a, b), fmt.Sprintf("etcd key of one of the topics %s / %s lies under a key directory of the other: %s", c22Q(a.spec.Name), c22Q(b.spec.Name), ex), witness(pair))
 				}
 			}
 		}
@@ -1515,12 +1554,12 @@ func (l *c22Leg) runCase(ci int) {
 		l.count("control_runs_clean", 1)
 		mech, culprit := c22Mechanism(l.kind, a, dev, steps[dev.Step], out.topics)
 		extra := map[string]any{"victim": a.spec.Name, "deviation": dev, "control_run": "the same operations of the victim alone (incl. restarts): no deviation"}
-		sum := fmt.Sprintf("[%s] topic %q after %s: %s", l.kind, a.spec.Name, dev.Trigger, dev.Detail)
+		sum := fmt.Sprintf("[%s] topic %s after %s: %s", l.kind, c22Q(a.spec.Name), dev.Trigger, dev.Detail)
 		if culprit != nil {
 			extra["culprit"] = culprit.spec.Name
 			extra["s3_objects_written_by_both"] = c22Intersect(a.s3W, culprit.s3W)
 			extra["shared_s3_partition_dirs"] = c22Intersect(a.s3Dirs, culprit.s3Dirs)
-			sum += fmt.Sprintf(" (other topic: %q)", culprit.spec.Name)
+			sum += fmt.Sprintf(" (other topic: %s)", c22Q(culprit.spec.Name))
 		}
 		if len(out.foreignDeletes) > 0 {
 			extra["etcd_keys_deleted_by_other_topics_operations"] = out.foreignDeletes
@@ -1543,11 +1582,12 @@ func TestVerifC22(t *testing.T) {
 			"acks=-1 with flush-on-ack, one producer, sequential requests, no faults: a deviation from a topic's own history that vanishes when the topic runs alone is caused by the other topics",
 			"the cluster metadata snapshot key and per-group keys (group lease, group metadata) are cluster-/group-level by design and not attributed to topics",
 			"EtcdStore part (counters prefixed etcd_): embedded single-node etcd, real time; a run in which a handler call took >1.5 s, the store reported etcd unavailable or the watch could not be synchronised is discarded, never judged",
-			"names that are not valid UTF-8 are not generated (EtcdStore keeps the topic list as JSON)")
+			"names that are not valid UTF-8 are not generated (EtcdStore keeps the topic list as JSON)",
+			"consumer group names are \"g\", or - only as the counterpart of a topic name that carries the store's separator - \"g:<x>\" / \"g/offsets/<x>\" with <x> not a topic of the case: effects that need nothing but a hostile GROUP name belong to C16/C17")
 	}()
 	// part 1: InMemoryStore
 	mem := &c22Leg{r: r, kind: "mem"}
-	n := r.N(200, 3000)
+	n := r.N(200, 5000)
 	for ci := 0; ci < n; ci++ {
 		mem.runCase(ci)
 	}
@@ -1558,7 +1598,7 @@ func TestVerifC22(t *testing.T) {
 	// part 2: EtcdStore over an embedded etcd
 	e := c22StartEtcd(t)
 	et := &c22Leg{r: r, kind: "etcd", etcd: e}
-	n = r.N(18, 150)
+	n = r.N(20, 260)
 	deadline := time.Now().Add(4 * time.Minute)
 	if r.Thorough() {
 		deadline = time.Now().Add(20 * time.Minute)
